@@ -62,7 +62,7 @@ def gen_plan(seed, tier="quick"):
             "knobs": plans.gen_knobs(r, driver, allow_batch=True),
             "callers": plans.gen_callers(r, driver, r.choice([1, 2, 2, 3]), 3,
                                          mix=(0.6, 0.15, 0.25), allow_raise=False,
-                                         allow_cancel=False,
+                                         allow_cancel=False, parallel=0.08,
                                          cats=_cats(r, driver)),
             "traffic": [], "deadline_s": 600}
     if driver in ("luba", "sci"):
